@@ -54,6 +54,7 @@ def plan(tier):
     units.append((tier, 'roots', 0, 0, 1))
     units += [(tier, 'matrix', 0, k, 16) for k in range(16)]
     units.append((tier, 'boundvars', 0, 0, 1))
+    units.append((tier, 'ownalias', 0, 0, 1))
     return units
 
 
@@ -220,6 +221,38 @@ def run(unit):
         r.count('validated', r.counters['evaluations'])
         r.sample({'bound_variable_case': 'forall i in {1, 2}: (@i = @v and @i = "a")'})
         return r
+    if sname == 'ownalias':
+        # the same field required at two disjoint types, one occurrence written through the event's own
+        # alias (in every slot kind), and the same computed-index element used at two types
+        problems = []
+        pairs = [
+            ('@M.x > 0', 'not x'), ('not @M.p', 'p > 0'), ('xs[@M.i] > 0', 'not i'), ('xs[@M.i + 1] > 0', 'i and p'), ('x in [0 to @M.k]', 'not k'),
+            ('y in {@M.k, 1}', 'len(k) > 0'), ('abs(@M.v) > 0', 'not v'), ('forall j in @M.zs: @j > 0', 'zs > 0'), ('@M.m.f > 0', 'not m.f'), ('@M.q[0] > 0', 'q.f > 0'),
+        ]
+        for a, b_ in pairs:
+            for cond in (f'{a} and {b_}', f'{b_} and {a}', f'({a} and y = y) and {b_}'):
+                for tmpl in ('globally: no t as M { %s }', 'after s: (u or t as M { %s }) causes w', 'until t as M { %s }: some w'):
+                    text = tmpl % cond
+                    r.count('evaluations')
+                    r.count('states')
+                    expect_type_error('prop', text, 'field required at two disjoint types, once through the own alias', r, problems)
+        computed = ['xs[x + 1]', 'xs[-1]', 'xs[abs(x)]', 'ms[len(xs) - 1].f', 'xs[xs[0]]', '@A.xs[x * 2]']
+        for ref in computed:
+            for use1, use2 in (('%s > 0', 'not %s'), ('not %s', '%s + 1 > 0'), ('%s in {1}', '%s.f > 0')):
+                for cond in (f'{use1 % ref} and {use2 % ref}', f'{use2 % ref} and ({use1 % ref} and y = y)'):
+                    r.count('evaluations')
+                    r.count('states')
+                    expect_type_error('pred', '{ ' + cond + ' }', 'computed-index element required at two disjoint types', r, problems)
+                    expect_type_error('prop', 'after s as A: no t { ' + cond + ' }', 'computed-index element required at two disjoint types', r, problems)
+        seen = set()
+        for kind_, detail in problems:
+            if kind_ in seen:
+                continue
+            seen.add(kind_)
+            r.violation(kind_, {'ownalias': True, 'text': detail}, detail, size=len(detail))
+        r.count('validated', r.counters['evaluations'])
+        r.sample({'own_alias_case': 'globally: no t as M { xs[@M.i + 1] > 0 and i and p }'})
+        return r
     if sname == 'matrix':
         from hplmc import sigmatrix
 
@@ -269,6 +302,8 @@ def replay(w):
     from hplmc.checks.c08 import _detuple
 
     r = Result()
+    if w.get('ownalias'):
+        return [{'sig': v['sig'], 'detail': v['detail']} for v in run(('quick', 'ownalias', 0, 0, 1)).violations]
     if w.get('boundvars'):
         return [{'sig': v['sig'], 'detail': v['detail']} for v in run(('quick', 'boundvars', 0, 0, 1)).violations]
     if w.get('matrix'):
@@ -284,7 +319,7 @@ def replay(w):
 def describe(tier):
     b = bounds(tier)
     return {
-        'rule': f"base: every accepted Bool term with <= {b['nodes']} nodes of the C04 universe for schemas {list(b['schemas'])}; for every argument position (operands of all operators, function arguments, range bounds, set elements, quantifier domains and bodies, indices) every filler of a 15-term menu (literals of each primitive sort, operator / function / quantifier results of each sort, a set, a range) whose own type is disjoint from the parameter type is injected - one clash per text, confirmed by the reference definite-clash analysis - and parsed as expression, predicate and property; plus reuse of each reference at a disjoint type (both conjunct orders) through the predicate, condition and property parsers; plus non-boolean roots; plus quantifiers over set / range literals whose bound variable is used at a type disjoint from the element type, alone and after 1-2 loosely typed occurrences (6 domains x 2 quantifiers x 3-4 clashing uses x 13 bodies); plus the signature matrix: every unary / binary operator and every built-in function with every wrong-sorted non-reference operand / argument (3 shapes per sort), every misuse of its result at a disjoint type, and one-argument calls of the two-argument functions. evaluations = injected texts; every one must raise TypeError.",
+        'rule': f"base: every accepted Bool term with <= {b['nodes']} nodes of the C04 universe for schemas {list(b['schemas'])}; for every argument position (operands of all operators, function arguments, range bounds, set elements, quantifier domains and bodies, indices) every filler of a 15-term menu (literals of each primitive sort, operator / function / quantifier results of each sort, a set, a range) whose own type is disjoint from the parameter type is injected - one clash per text, confirmed by the reference definite-clash analysis - and parsed as expression, predicate and property; plus reuse of each reference at a disjoint type (both conjunct orders) through the predicate, condition and property parsers; plus non-boolean roots; plus 10 field pairs required at two disjoint types with one occurrence written through the event's own alias (in every slot kind, 3 orders, 3 event positions) and 6 computed-index elements used at two types; plus quantifiers over set / range literals whose bound variable is used at a type disjoint from the element type, alone and after 1-2 loosely typed occurrences (6 domains x 2 quantifiers x 3-4 clashing uses x 13 bodies); plus the signature matrix: every unary / binary operator and every built-in function with every wrong-sorted non-reference operand / argument (3 shapes per sort), every misuse of its result at a disjoint type, and one-argument calls of the two-argument functions. evaluations = injected texts; every one must raise TypeError.",
         'bounds': {'nodes': b['nodes']},
         'exhaustive': True,
         'assumptions': ['= / != clashes are generated only between two operands that each certainly have one base type (literal or operator/function result); transitive clashes through references and heterogeneous sets are not claimed and not generated'],
